@@ -102,7 +102,10 @@ Definition plugin_execute (k : nat) (o : outcome) : plug_ret :=
 
 Definition overruns (o : outcome) : bool := match o with OOverrun => true | _ => false end.
 
-(* run(): select { case <-ctx.Done(): timeout   case resp := <-ch: resp } *)
+(* run(): select { case <-ctx.Done(): (an answer that already arrived wins: non-blocking receive of ch) else timeout
+                   case resp := <-ch: resp }
+   An outcome ORet answers before the deadline, OOverrun only after the engine has given up: per outcome the
+   result is the same with or without the non-blocking receive (fix 45aa3d6, finding T1). *)
 Inductive run_ret := RunTimeout | RunResp (r : plug_ret).
 
 Definition run (k : nat) (o : outcome) : run_ret :=
